@@ -26,7 +26,7 @@ def run_check(pid):
         if pid=='C20' and re.search(r'cannot be (sent|shared) between threads safely', b.stderr):
             return {'rc':1,'first':'compile-time: Send/Sync assertion does not compile'}
         return {'rc':2,'first':'harness does not build: '+(re.findall(r'error[^\n]*', b.stderr) or ['?'])[0][:200]}
-    r=sh(f'{SM}/target/debug/vcheck {pid} --tier quick --seed 1', env=env)
+    r=sh(f'{SM}/target/debug/vcheck {pid} --tier quick --seed '+os.environ.get('SEED_VERIF_SEED','1'), env=env)
     lines=(r.stdout+r.stderr).splitlines()
     first=''
     for l in lines:
